@@ -407,6 +407,11 @@ class Explorer:
         # C13 invariants (2D): every produced row has VD == 0 and the altitude last supplied
         if not self.wa:
             n_fro = 0 if frozen is None else len(frozen)
+            # the row holding a supplied state is a row of the integrator's trajectory too: the constructor and
+            # set_pva store it with VD = 0 (what get_pva, the trajectory and the next integrate call report)
+            if (got[:, 5] != 0.0).any():
+                self.v('c13-vd-nonzero:supplied-row', '2D: the trajectory reports VD = %s (rows holding a supplied state '
+                       'included)' % got[:, 5].tolist(), hist)
             produced = got[n_fro + 1:]
             if len(produced):
                 alt_sup = got[n_fro, 2]
